@@ -566,7 +566,7 @@ def requests(ins, outs, all_subsets):
     return reqs
 
 
-def histories(ins, outs, level, all_subsets=False, all_pairs=True):
+def histories(ins, outs, level, all_subsets=False, pairs="all"):
     """Request histories: one request (level 0), plus two successive requests on the same process
     (level 1: the quick set, level 2: the thorough set)."""
     hs = [[{"all": True}]]
@@ -594,7 +594,7 @@ def histories(ins, outs, level, all_subsets=False, all_pairs=True):
     for (i1, o1), (i2, o2) in itertools.permutations(single, 2):
         # same input / same output: only one side of the request grows; disjoint: the union contains two blocks
         # nobody asked for explicitly
-        if all_pairs or (i1 != i2 and o1 != o2):
+        if pairs == "all" or (pairs == "disjoint" and i1 != i2 and o1 != o2):
             hs.append([{"in": i1, "out": o1}, {"in": i2, "out": o2}])
         if level > 1 and i1 != i2 and o1 != o2:
             hs.append([{"in": i1, "out": o1}, {"in": i2, "out": o2, "pt": 1}])
@@ -643,7 +643,11 @@ def gen_cases(ctx, table):
                     level = 2 if thorough else 1
                 else:
                     level = 1 if thorough and kind in ("par", "add", "chain[par]") else 0
-                for h in histories(ins, outs, level, all_subsets=thorough and level == 2, all_pairs=kind in CHAINLIKE or (thorough and kind in PRUNING_KINDS)):
+                if kind in CHAINLIKE or (thorough and kind in PRUNING_KINDS):
+                    pairs = "all"
+                else:
+                    pairs = "disjoint" if thorough else "none"
+                for h in histories(ins, outs, level, all_subsets=thorough and level == 2, pairs=pairs):
                     if h != [{"all": True}]:  # done in P1
                         yield mk("P2", specs, tree, h)
         if thorough:  # up to 4 names per side: single requests
@@ -751,7 +755,7 @@ def run(ctx):
         + "; two-request histories on the same process for MDOChain/MDAChain/chain[chain,D]"
         + (" and (reduced) every other kind" if th else "")
         + ": all->all and subset->all after moving one chain input (each in turn), subset->all (same" + ("/moved" if th else "") + " point), all->subset (" + ("same/" if th else "") + "moved point), "
-        + ("subset->full, " if th else "") + "every ordered pair of singleton requests" + (" (disjoint ones also at a moved point)" if th else " (chain[chain,D]: disjoint pairs only)")
+        + ("subset->full, " if th else "") + "every ordered pair of singleton requests" + (" (disjoint ones also at a moved point)" if th else " (not for chain[chain,D])")
         + ("; representatives with 3-4 names on a side as chain/mda/chain[chain,D]: singleton and full requests" if th else ""),
         "P3": "three disciplines, <= 2 reads, " + ("<= 2 writes: every composition (10^6, every sort order) as MDOChain; single-write representatives as every other kind incl. 6 nestings" if th else "1 write: representatives x every kind incl. 4 nestings") + ", all Jacobians",
         "P3r": "three single-write disciplines (representatives) as MDOChain/MDAChain" + ("/chain[chain,D]/chain[D,par]" if th else "") + ": singleton and full requests; all Jacobians, then all Jacobians after moving one chain input (each in turn)" + (", singleton request then all Jacobians at a moved point" if th else ""),
